@@ -55,6 +55,66 @@ class Listener:
         self.chk(self.d, self.sim)
 
 
+def user_blocks(res, rng, n):
+    """user-defined behavioural leaves (the property is about whatever the driving blocks compute): leaves that put/prepare
+    negative, oversized and repeated (twice in one cycle) values; oracle = range check on every wire, also in a listener"""
+    import py4hw
+
+    class Wild(py4hw.Logic):
+        def __init__(self, parent, name, a, q, p, mode, k):
+            super().__init__(parent, name)
+            self.a = self.addIn('a', a)
+            self.q = self.addOut('q', q)
+            self.p = self.addOut('p', p)
+            self.mode, self.k, self.count = mode, k, 0
+
+        def clock(self):
+            self.count += 1
+            v = self.count * self.k - 3 * self.a.get()
+            if self.mode == 0:
+                self.q.prepare(v)
+            elif self.mode == 1:
+                self.q.prepare(0)
+                if self.a.get() & 1:
+                    self.q.prepare(v)          # second prepare in the same cycle
+            else:
+                self.q.prepare(v)
+                self.q.prepare(-v - (1 << (self.q.getWidth() + 2)))
+
+        def propagate(self):
+            self.p.put(-(self.a.get() << 3) - self.count)
+
+    import contextlib, io
+    for i in range(n):
+        r = rng.fork(i)
+        hw = py4hw.HWSystem()
+        a = hw.wire('a', r.randint(1, 9))
+        ws = []
+        for j in range(r.randint(1, 3)):
+            q = hw.wire(f'q{j}', r.randint(1, 9))
+            pw = hw.wire(f'p{j}', r.randint(1, 9))
+            Wild(hw, f'w{j}', a if j == 0 else ws[-1], q, pw, r.randint(0, 2), r.choice([1, 7, 100, -5, 1 << 12]))
+            ws.append(q)
+        sim = hw.getSimulator()
+        wires = D.all_wires(hw)
+        desc = dict(design='user-defined Wild leaves', n=len(ws), widths=[w.getWidth() for w in wires])
+
+        def chk(_d=None, _s=None):
+            for w in wires:
+                v = w.value
+                if not (isinstance(v, int) and 0 <= v < (1 << w.getWidth())):
+                    res.fail(f'wire {w.getFullPath()} width {w.getWidth()} holds {v}',
+                             dict(desc, wire=w.getFullPath(), width=w.getWidth(), value=v, clks=sim.total_clks))
+        lst = Listener(None, chk, sim)
+        sim.addListener(lst)
+        with contextlib.redirect_stdout(io.StringIO()):
+            for t in range(r.randint(5, 40)):
+                a.put(r.randint(-3, 1 << 10))
+                sim.clk(r.choice([1, 1, 2]))
+                chk()
+        res.count(('user', i), hist={'user_designs': 'wild'})
+
+
 def main(res, tier, rng, replay):
     ok, metas, errors, changed = regenerate()
     for e in errors:
@@ -92,6 +152,15 @@ def main(res, tier, rng, replay):
             nb.add(sysobj, ops, label=i, extra_check=chk)
         except D.NotDumpable:
             continue
+        except ToolFailure:
+            raise
+        except Exception as e:
+            # the simulator itself crashed (e.g. an out-of-range value used as a memory address): look at the wires
+            n0 = len(res.failures) + len(res.known_hits)
+            chk(d0, sim)
+            if len(res.failures) + len(res.known_hits) == n0:
+                res.hist('simulation_errors', f'{type(e).__name__}:{str(e)[:40]}')
+            continue
         res.count(('design', i, str(ps)), hist={'design_nodes': len(plan['nodes']) // 10 * 10})
         for nd in plan['nodes']:
             res.hist('leaf_kinds', nd['kind'])
@@ -107,6 +176,7 @@ def main(res, tier, rng, replay):
         nb.run()
     except ToolFailure as e:
         res.broken.append(('correspondence', 'net-sim', str(e)[:300]))
+    user_blocks(res, rng.fork('user'), 40 if tier == 'quick' else 600)
     res.cov['rule'] = ('T1: every generated leaf/FSM/Wire definition vs the real method on seeded states (distinct = distinct request '
                        'line); designs: seeded random netlists of primitive leaves with registers/feedback/memories, built in random '
                        'instantiation order, driven by extreme pokes (negative, oversized) and clk(n); every wire range-checked on the '
